@@ -51,11 +51,16 @@ def use_line(use, prog):
 
 
 def concretize(c, slow, tag, marker, dur):
-    prog = '%s %s %s %s' % (slow, tag, c['child'], dur)
+    # half of the cases: one more argument (which the program ignores) made of text that is hostile to message
+    # formatting - the command line is quoted in the error message of a timeout
+    import zlib
+    hostile = " '{0}%s{'" if zlib.crc32(sig(c).encode()) % 2 else ''
+    prog = '%s %s %s %s%s' % (slow, tag, c['child'], dur, hostile)
     conf, setup, act, ba, asrt, cleanup = [], [], [], [], [], []
     tmo = {'default': [], 'set-before': ['timeout = 1'], 'none-then-set': ['timeout = none', 'timeout = 1'],
            'set-then-none': ['timeout = 1', 'timeout = none'], 'set-after': [],
-           'decl-then-set': [], 'set-decl-none': ['timeout = 1']}[c['hist']]
+           'decl-then-set': [], 'set-decl-none': ['timeout = 1'],
+           'zero-before': ['timeout = 0'], 'none-then-zero': ['timeout = none', 'timeout = 1-1']}[c['hist']]
     setup += tmo
     if c['env']:
         setup.append('env VERIF_E = 1')
@@ -67,10 +72,10 @@ def concretize(c, slow, tag, marker, dur):
             act = ['$ ' + prog]
         elif c['use'] == 'actor-file':
             conf.append('actor = file % sh')
-            act = ['slow.sh %s %s %s' % (tag, c['child'], dur)]
+            act = ['slow.sh %s %s %s%s' % (tag, c['child'], dur, hostile)]
         elif c['use'] == 'actor-source':
             conf.append('actor = source % sh')
-            act = ['exec %s %s %s %s' % (slow, tag, c['child'], dur)]
+            act = ['exec %s %s %s %s%s' % (slow, tag, c['child'], dur, hostile)]
         else:
             setup.append('stdin = -stdout-from %s' % prog)
             if c['hist'] == 'decl-then-set':        # in force when the process starts, in [act]
@@ -84,6 +89,8 @@ def concretize(c, slow, tag, marker, dur):
         phases[c['place']].append(use_line(c['use'], prog))
         if c['hist'] == 'set-after':
             phases[c['place']].append('timeout = 1')
+    if c['hist'] in ('zero-before', 'none-then-zero'):
+        cleanup.append('timeout = none')          # (the marker is written by a process, too)
     cleanup.append('$ touch %s' % marker)
     parts = []
     if conf:
@@ -161,9 +168,10 @@ def compare(c, o):
         return 'BoundedReturn: Exactly did not return within the deadline', False
     if o.get('exception') or o.get('harness_exception') or o.get('worker_died'):
         return 'NoEscapingException: %s' % str(o)[:200], False
-    if not o['child_started']:
+    if not o['child_started'] and c['atStart'] != 'zero':     # (a limit of 0 s: the child may not get as far as that)
         return 'ChildStarted: the program was never started (concretisation?)', False
-    want = {'set': LIMIT_S, 'none': None, 'default': 60}[c['atStart']]
+    want = {'set': LIMIT_S, 'none': None, 'default': 60, 'zero': 0}[c['atStart']]
+    limit_s = 0 if c['atStart'] == 'zero' else LIMIT_S
     if o.get('given') and any(g != want for g in o['given']):
         return 'TimeoutInForceAtStart: the process was started with limit %s, specification %s (%s)' % (
             o['given'], want, c['atStart']), False
@@ -187,9 +195,9 @@ def compare(c, o):
         return 'SandboxRemoved: %s' % o['sandboxes'], False
     if c['killed'] and c['use'] not in ('shell', 'actor-shell', 'actor-source') and o['child_alive']:
         return 'KilledWhenOver: the process Exactly started is still alive', False
-    if c['killed'] and o['wall'] > LIMIT_S + SLACK_S:
-        return 'BoundedReturn: returned after %.1f s (limit %d s)' % (o['wall'], LIMIT_S), True
-    if c['killed'] and o['wall'] < LIMIT_S * 0.9:
+    if c['killed'] and o['wall'] > limit_s + SLACK_S:
+        return 'BoundedReturn: returned after %.1f s (limit %d s)' % (o['wall'], limit_s), True
+    if c['killed'] and o['wall'] < limit_s * 0.9:
         return 'NotKilledWhenUnder: HARD_ERROR after only %.2f s' % o['wall'], True
     if not c['killed'] and o['wall'] < expected_dur(c) * 0.9:
         return 'RunsToCompletion: returned after %.2f s, the child runs %.1f s' % (o['wall'], expected_dur(c)), True
@@ -205,6 +213,10 @@ def select_quick(cases, rnd):
     for c in cases:
         if c['hist'] in ('decl-then-set', 'set-decl-none'):
             if not c['env'] and c['child'] != 'stubborn':
+                out.append(c)
+        elif c['hist'] in ('zero-before', 'none-then-zero'):
+            # a limit of 0 seconds: cheap (every process is killed at once) - every place x use
+            if not c['env'] and (c['child'] == 'long' if c['hist'] == 'zero-before' else c['child'] == 'short'):
                 out.append(c)
         elif c['child'] == 'short':
             out.append(c)       # cheap: every place x use x history, judged by the limit given at the start
@@ -222,7 +234,8 @@ def select_quick(cases, rnd):
 def run(ctx):
     quick = ctx.tier == 'quick'
     rnd = random.Random(ctx.seed)
-    hists = ['default', 'set-before', 'set-after', 'none-then-set', 'set-then-none', 'decl-then-set', 'set-decl-none']
+    hists = ['default', 'set-before', 'set-after', 'none-then-set', 'set-then-none', 'decl-then-set', 'set-decl-none',
+             'zero-before', 'none-then-zero']
     mc = ctx.tlc('Timeout', cfg(hists), coverage=True, name='mc')
     ctx.require_coverage(mc, ['Start', 'Tick', 'ChildExit', 'Kill', 'ExecStep'])
     ctx.tlc('Timeout', cfg(['set-before', 'set-after'], spec='TFairSpec', invariants=[], props=['Returns']),
